@@ -228,8 +228,8 @@ Param(op, pn, pd, r, a) ==
 (* vector e_i, the Hessian is zero - the register is a fresh leaf that shares     *)
 (* the derivative slot of variable i; nothing of the result it held may survive.  *)
 Activate(r, i) ==
-  /\ reg'  = [reg EXCEPT ![r] = Z(i, Len(hist) + 1)]
-  /\ dev'  = [dev EXCEPT ![r] = Z(i, Len(hist) + 1)]
+  /\ reg'  = [reg EXCEPT ![r] = ZLeaf(i, Len(hist) + 1)]
+  /\ dev'  = [dev EXCEPT ![r] = ZLeaf(i, Len(hist) + 1)]
   /\ guard' = guard
   /\ flow' = [flow EXCEPT ![r] = {i}]
   /\ hist' = Append(hist, Call("Activate", r, <<>>, <<>>, <<i>>))
